@@ -891,6 +891,10 @@ func runC02(o *opts) error {
 			emit(d, store, kind, q)
 		}
 	}
+	// sort specifications longer than SortMax over rows that tie on the leading fields (c19long.go)
+	if err := c19LongEmitC02(o, qb, cases, impl, bump, emit); err != nil {
+		return err
+	}
 	writeJSON(o.out, "stats.json", stats)
 	return nil
 }
